@@ -6,6 +6,7 @@ package main
 //     altered tokens, against the issuer and against other principals.
 
 import (
+	"reflect"
 	"encoding/base64"
 	"fmt"
 	"math/rand"
@@ -182,7 +183,7 @@ func signPayloadOf(u ucan.View) (alg string, payload string, err error) {
 	}
 	p := pdm.PayloadModel{Iss: u.Issuer().DID().String(), Aud: u.Audience().DID().String(), Att: u.Model().Att, Prf: prfstrs,
 		Exp: u.Expiration(), Fct: u.Model().Fct, Nnc: u.Model().Nnc, Nbf: u.Model().Nbf}
-	payload, err = formatter.FormatSignPayload(p, u.Version(), alg)
+	payload, err = formatSignPayload(p, u.Version(), alg)
 	return alg, payload, err
 }
 
@@ -219,7 +220,7 @@ func issueUnguarded(iss ucan.Signer, aud ucan.Principal, caps []ucan.Capability[
 	if nbf != 0 {
 		payload.Nbf, model.Nbf = &nbf, &nbf
 	}
-	str, err := formatter.FormatSignPayload(payload, "0.9.1", iss.SignatureAlgorithm())
+	str, err := formatSignPayload(payload, "0.9.1", iss.SignatureAlgorithm())
 	if err != nil {
 		return nil, err
 	}
@@ -978,3 +979,34 @@ func init() {
 }
 
 var _ = cid.Undef
+
+
+// formatSignPayload calls formatter.FormatSignPayload through reflection, so that the harness still builds — and can
+// look for a token that no longer verifies or verifies wrongly — when that helper's parameter list changes
+// (payload, version, algorithm today; a variant that takes no version is called with (payload, algorithm)).
+func formatSignPayload(p pdm.PayloadModel, version, alg string) (string, error) {
+	f := reflect.ValueOf(formatter.FormatSignPayload)
+	var args []reflect.Value
+	switch f.Type().NumIn() {
+	case 3:
+		args = []reflect.Value{reflect.ValueOf(p), reflect.ValueOf(version), reflect.ValueOf(alg)}
+	case 2:
+		args = []reflect.Value{reflect.ValueOf(p), reflect.ValueOf(alg)}
+	default:
+		return "", fmt.Errorf("formatter.FormatSignPayload takes %d parameters", f.Type().NumIn())
+	}
+	for i, a := range args {
+		if !a.Type().AssignableTo(f.Type().In(i)) {
+			return "", fmt.Errorf("formatter.FormatSignPayload: parameter %d is a %s", i, f.Type().In(i))
+		}
+	}
+	out := f.Call(args)
+	if len(out) != 2 {
+		return "", fmt.Errorf("formatter.FormatSignPayload returns %d values", len(out))
+	}
+	var err error
+	if e, ok := out[1].Interface().(error); ok {
+		err = e
+	}
+	return out[0].String(), err
+}
